@@ -273,7 +273,8 @@ TrDeleteMarker ==
   /\ IF Role[A] = "collector" THEN GSweepMarker(A, ev.f)
      ELSE IF pc[A] = "c_cleanup" THEN DeleteMarker(A, ev.f) ELSE RollbackDeleteMarker(A, ev.f)
 
-TrDeleteFile == IsEv("DeleteFile") /\ ev.ok /\ IF Role[A] = "collector" THEN GDelete(A, ev.f) ELSE RollbackDeleteData(A, ev.f)
+TrDeleteFile == IsEv("DeleteFile") /\ ev.ok /\ IF Role[A] = "collector" THEN (IF ev.f \in present THEN GDelete(A, ev.f) ELSE GDeleteGone(A, ev.f))
+                                                 ELSE RollbackDeleteData(A, ev.f)
 
 TrRet ==
   /\ IsEv("Ret")
